@@ -11,9 +11,12 @@ BATCH = 3000
 RULE = ("per case 1-4 hotspot rules (mostly MetricType=Concurrency; general threshold from {0,1,1,2,3}, 0-2 specific items with "
         "thresholds from {0,1,2,5,-1}; ParamIndex from {0,1,-1,-2,2}, ParamKey '' / k / u incl. the invalid index>0+key combination and "
         "negative thresholds; ParamsMaxCapacity from {0 (=4000),1,2,3,8}; sometimes two rules on one resource, sometimes an inert QPS rule) on "
-        "1-3 resources, then 15-90 ops: entries whose arguments are drawn from a pool of 4-9 values of five dynamic types (so that the "
-        "same value recurs and thresholds are reached, crossed by one and released), with 0-3 positional arguments and optional "
-        "attachments, exits of any earlier entry in any order (nested and interleaved across values and resources); in a third of the "
+        "1-3 resources; in 35% of the cases QPS rules (Reject with a generous threshold, Throttling that queues every closely following "
+        "request of a value and never blocks) stand before and after the concurrency rules of a resource; then 15-90 ops: entries whose "
+        "arguments are drawn from a pool of 2-9 values of five dynamic types (so that the same value recurs and thresholds are reached, "
+        "crossed by one and released), with 0-3 positional arguments - in 25% of the cases up to 12, ParamIndex at late positions "
+        "(7..11, -8..-12), several entries with more than 8 arguments alive at once, lists re-used with one position changed - optional "
+        "attachments, WithBatchCount from {0,1,2,5,2^31,2^32-1} on 30% of the entries (<= 5 next to QPS rules), exits of any earlier entry in any order (nested and interleaved across values and resources); in a third of the "
         "cases some Entry calls are made by other goroutines that are held at the yield point between the rule-check loop and the "
         "statistic loop and resumed later in any order (schedules: check/commit interleavings, up to 4 parked at once); reads of a live "
         "entry's Input.Args, a flow rule with threshold 0 on a resource (entries blocked by another slot), occasionally a reload; "
@@ -23,52 +26,87 @@ RULE = ("per case 1-4 hotspot rules (mostly MetricType=Concurrency; general thre
 VALS = ["i:1", "i:2", "l:1", "s:a", "s:b", "b:1", "s:1", "i:0", "b:0", "i:-3", "l:2", "s:zz"]
 
 
-def gen_rule(rng, res, pool):
-    kind = "c" if rng.random() < 0.9 else "q"
+BIG_BATCH = [2147483648, 4294967295]
+
+
+def gen_rule(rng, res, pool, wide=False, qps=False):
+    kind = "c"
+    if qps and rng.random() < 0.45:
+        kind = rng.choice(["q", "t", "t"])
+    elif rng.random() < 0.03:
+        kind = "q"
     idx = rng.choice([0, 0, 0, 1, -1, -1, -2, 2])
+    if wide and rng.random() < 0.7:
+        # late positions of long argument lists, from the front and from the end
+        idx = rng.choice([3, 7, 8, 9, 10, 11, -1, -3, -8, -9, -10, -12])
     key = rng.choice(["", "", "", "k", "u"])
     if key and idx > 0 and rng.random() < 0.8:
         idx = rng.choice([0, -1])
     thr = rng.choice([0, 1, 1, 1, 2, 2, 3]) if rng.random() < 0.95 else rng.choice([-1, 1000000])
     pmc = rng.choice([0, 0, 0, 0, 0, 0, 8, 3, 2, 1]) if rng.random() < 0.9 else rng.choice([-1, 4000, 5])
     items = []
-    for v in rng.sample(pool, rng.choice([0, 0, 1, 1, 2])):
-        items.append(f"{v}={rng.choice([0, 1, 1, 2, 2, 5, -1])}")
+    if kind == "c":
+        for v in rng.sample(pool, rng.choice([0, 0, 1, 1, 2])):
+            items.append(f"{v}={rng.choice([0, 1, 1, 2, 2, 5, -1])}")
     return f"{res};{kind};{idx};{key};{thr};{pmc};{','.join(items)}"
 
 
-def gen_entry(rng, eid, res, pool):
-    n = rng.choice([0, 1, 1, 1, 1, 2, 2, 3])
-    toks = [rng.choice(pool) if rng.random() < 0.93 else "nil" for _ in range(n)]
+def gen_entry(rng, eid, res, pool, wide=False, batches=None, template=None):
+    """template: an earlier argument list of the same case; reusing it with one position changed gives long lists
+    that agree or differ exactly at the position a rule looks at"""
+    if template is not None and rng.random() < 0.6:
+        toks = list(template)
+        if toks and rng.random() < 0.5:
+            toks[rng.randrange(len(toks))] = rng.choice(pool)
+    else:
+        n = rng.choice([0, 1, 1, 1, 1, 2, 2, 3])
+        if wide and rng.random() < 0.7:
+            n = rng.choice([4, 8, 9, 9, 10, 11, 12, 12])
+        toks = [rng.choice(pool) if rng.random() < 0.93 else "nil" for _ in range(n)]
     if rng.random() < 0.25:
         for k in rng.sample(["k", "u", "w"], rng.choice([1, 1, 2])):
             toks.append(f"@{k}={rng.choice(pool) if rng.random() < 0.9 else 'nil'}")
-    return " ".join([f"entry {eid} {res}"] + toks)
+    head = [f"entry {eid} {res}"]
+    if batches and rng.random() < 0.3:
+        head.append(f"#{rng.choice(batches)}")
+    return " ".join(head + toks)
 
 
 def gen_case(rng, cid, big=False):
     nres = rng.choice([1, 1, 2, 2, 3])
     ress = [f"r{i + 1}" for i in range(nres)]
     pool = rng.sample(VALS, rng.choice([2, 3, 4, 4, 5, 6, 9]))
+    wide = rng.random() < 0.25      # argument lists of up to 12 values (beyond any small-buffer fast path)
+    qps = rng.random() < 0.35       # QPS rules (reject, queueing throttle) before / after the concurrency rules
+    has_qps = [False]
     def rules():
         rs = []
         for r in ress:
             if rng.random() < 0.9:
-                rs.append(gen_rule(rng, r, pool))
-                while rng.random() < 0.3 and len(rs) < 5:
-                    rs.append(gen_rule(rng, r, pool))
+                rs.append(gen_rule(rng, r, pool, wide, qps))
+                while rng.random() < (0.5 if qps else 0.3) and len(rs) < 5:
+                    rs.append(gen_rule(rng, r, pool, wide, qps))
         if not rs:
-            rs.append(gen_rule(rng, ress[0], pool))
+            rs.append(gen_rule(rng, ress[0], pool, wide, qps))
         if rng.random() < 0.3:
             rng.shuffle(rs)
+        if any(";q;" in x or ";t;" in x for x in rs):
+            has_qps[0] = True
         return rs
     ops = ["load " + " ".join(rules())]
     ids, k = [], 0
     parked = []
+    fb = set()
+    templates = []
     p_race = rng.choice([0, 0, 0, 0.08, 0.2, 0.35])
     nops = rng.randint(15, 90) if not big else rng.randint(100, 300)
     # phases bias the mix: filling (many entries), draining (many exits)
     p_exit = rng.choice([0.2, 0.3, 0.4])
+    def batches(res):
+        # a batch count never changes what a concurrency cell does; with QPS rules around only small ones (their
+        # "never blocks" parameters hold for batches <= 5), and no 0 on a flow-blocked resource (0 passes that rule)
+        bs = [0, 1, 2, 5] if has_qps[0] else [0, 1, 2, 5] + BIG_BATCH
+        return [b for b in bs if not (b == 0 and res in fb)]
     for _ in range(nops):
         r = rng.random()
         if rng.random() < 0.04:
@@ -83,13 +121,18 @@ def gen_case(rng, cid, big=False):
         elif r < p_exit + 0.08 and ids:
             ops.append(f"args {rng.choice(ids)}")
         elif r < p_exit + 0.09 and rng.random() < 0.25:
-            ops.append(f"flowblock {rng.choice(ress)}")
+            res = rng.choice(ress)
+            fb.add(res)
+            ops.append(f"flowblock {res}")
         elif r < p_exit + 0.10 and rng.random() < 0.15:
             ops.append("load " + " ".join(rules()))
         else:
             k += 1
             eid = f"e{k}"
-            e = gen_entry(rng, eid, rng.choice(ress), pool)
+            res = rng.choice(ress)
+            e = gen_entry(rng, eid, res, pool, wide, batches(res), rng.choice(templates) if (wide and templates) else None)
+            if wide:
+                templates.append([t for t in e.split()[3:] if t[0] not in "#@"])
             if rng.random() < p_race and len(parked) < 4:
                 # the same call made by another goroutine, parked between its check and its statistic slots;
                 # often a second one for the same value right behind it (the check-then-act window)
@@ -114,7 +157,7 @@ def gen_case(rng, cid, big=False):
         for v in rng.sample(pool, min(len(pool), 3)):
             k += 1
             ops.append(f"entry e{k} {rng.choice(ress)} {v}")
-    return Case(cid, ops, tags=(f"res={nres}", f"pool={len(pool)}"))
+    return Case(cid, ops, tags=(f"res={nres}", f"pool={len(pool)}") + (("wide",) if wide else ()) + (("qps",) if qps else ()))
 
 
 def gen(ctx, n):
@@ -166,7 +209,7 @@ def densify(ops, rng):
                 out.append(f"args {i}")
         if rng.random() < 0.15 and t[0] == "entry":
             n += 1
-            out.append(" ".join(["entry", f"p{n}"] + t[2:]))
+            out.append(" ".join(["entry", f"p{n}"] + [x for x in t[2:] if x != "#0"]))
             if rng.random() < 0.5:
                 out.append(f"exit p{n}")
     return out
@@ -227,6 +270,7 @@ META = {
                    "aliasing (3ae3ba7) are repaired in the tree: regression corpus + witnesses on the old semantics. Sequential histories "
                    "and check/commit interleavings at the one yield point that matters for the cells (cache operations are under a lock, counter updates "
                    "are single atomic adds). Values: int, int64, string, bool, nil (no float/NaN, "
-                   "no unhashable values); QPS rules are inert here (C05)."),
+                   "no unhashable values); QPS rules (Reject 1e9/s, Throttling 1/s queueing with MaxQueueingTimeMs 1e9) stand before/after the concurrency rules and "
+                   "are inert in the model, valid for batch counts <= 5 (C05 is about them); the batch count is not a model parameter."),
     "design_ref": "DESIGN.md 6.C06",
 }
